@@ -1526,8 +1526,10 @@ func (t *Terminal) UpdateList(merger *Merger) {
 		} else {
 			// Trimmed by --tail: filter selection by index
 			filtered := make(map[int32]selectedItem)
+			// NOTE: The length of the merger is the number of the matches,
+			// not the number of the items in the list
 			minIndex := merger.minIndex
-			maxIndex := minIndex + int32(merger.Length())
+			maxIndex := minIndex + int32(util.Max(t.count, merger.Length()))
 			for k, v := range t.selected {
 				var included bool
 				if maxIndex > minIndex {
